@@ -69,7 +69,9 @@ Back(u, p) ==
     /\ UNCHANGED <<st, arg, tok, cst, starts, inpool, expect, rin>>
 \* unobserved: a unit waiting at a scheduling point whose cancellation has been
 \* requested is terminated instead of being run again
-Honour(u) == /\ st[u] = "running" /\ inYield[u] /\ cst[u] \in {1, 2}
+Honour(u) == /\ \/ (st[u] = "running" /\ inYield[u])
+                \/ st[u] = "created"                 \* cancelled before its first run: it never starts
+             /\ cst[u] \in {1, 2}
              /\ st' = [st EXCEPT ![u] = "done"] /\ cst' = [cst EXCEPT ![u] = 3]
              /\ UNCHANGED <<arg, tok, starts, inYield, mg, inpool, expect, rin>>
 Suspend(u) == /\ st[u] = "running" /\ st' = [st EXCEPT ![u] = "blocked"]
